@@ -531,3 +531,31 @@ where
         Ok(())
     }
 }
+
+/// Read-only view of the driver's bookkeeping, for external runtime monitors.
+#[cfg(feature = "verif-hooks")]
+impl<RK, DLY> LoRa<RK, DLY>
+where
+    RK: RadioKind,
+    DLY: DelayNs,
+{
+    /// The mode the driver believes the radio is in.
+    pub fn verif_radio_mode(&self) -> RadioMode {
+        self.radio_mode
+    }
+
+    /// Whether the driver will re-run the cold start sequence before the next operation.
+    pub fn verif_cold_start(&self) -> bool {
+        self.cold_start
+    }
+
+    /// Whether the driver will re-run image calibration before the next operation.
+    pub fn verif_calibrate_image(&self) -> bool {
+        self.calibrate_image
+    }
+
+    /// Shared access to the radio kind (e.g. to inspect an emulated chip behind it).
+    pub fn verif_radio_kind(&mut self) -> &mut RK {
+        &mut self.radio_kind
+    }
+}
